@@ -207,6 +207,7 @@ func c12Sequential(j *Job) *JobResult {
 		var live []allocRes   // since the last Reset
 		var sinceReset []allocReq
 		trimmed := false
+		hiB, hiP := 0, 0
 		for i, r := range hist {
 			switch r.K {
 			case "reset":
@@ -232,11 +233,16 @@ func c12Sequential(j *Job) *JobResult {
 				x.idx = i
 				live = append(live, x)
 				sinceReset = append(sinceReset, r)
+				// how far any epoch has dirtied the chunks: memory behind the cursor is part of
+				// the state (AllocateAligned must hand out zeroed memory after a Reset)
+				if _, b, p := z.VerifAllocator(a); b > hiB || (b == hiB && p > hiP) {
+					hiB, hiP = b, p
+				}
 			}
 		}
 		viols = append(viols, checkAllocs(live, "C12")...)
 		lens, bi, pi := z.VerifAllocator(a)
-		return fmt.Sprint(lens, bi, pi, len(live), len(sinceReset), trimmed), viols
+		return fmt.Sprint(lens, bi, pi, len(live), len(sinceReset), trimmed, hiB, hiP, z.VerifAllocatorExtraFP(a)), viols
 	}
 	runT := func(h []allocReq) (string, []Viol, bool) {
 		type out struct {
